@@ -59,6 +59,7 @@ type Config struct {
 	Trace        bool // keep a human readable log of every step
 	AtomicPoints bool // sync/atomic operations are scheduling points
 	NoPoison     bool // do not poison []byte handed to a Pool
+	NoStalls     bool // do not offer the "stall the default thread" alternative
 	LibPrefix    string
 }
 
@@ -83,19 +84,20 @@ type objState struct {
 }
 
 type thread struct {
-	id     int
-	name   string
-	lib    bool
-	path   uint64
-	spawns uint64
-	opIdx  uint64
-	wake   chan struct{}
-	pred   func() bool
-	what   string
-	obj    *objState
-	done   bool
-	exited bool
-	gone   chan struct{}
+	id      int
+	name    string
+	lib     bool
+	path    uint64
+	spawns  uint64
+	opIdx   uint64
+	wake    chan struct{}
+	pred    func() bool
+	what    string
+	obj     *objState
+	done    bool
+	exited  bool
+	gone    chan struct{}
+	demoted int // > 0: stalled (order of demotion); scheduled only when no other thread can run
 }
 
 type sched struct {
@@ -117,6 +119,7 @@ type sched struct {
 	err      string
 	log      []string
 	quiescer *thread
+	ndemoted int
 }
 
 // S is the active execution (nil = pass-through mode).
@@ -316,19 +319,35 @@ func (s *sched) schedule(me *thread) {
 		return
 	}
 	s.steps++
-	var en []*thread
+	var en, dem []*thread
 	curEnabled := me != nil && enabled(me)
 	if curEnabled {
-		en = append(en, me)
+		if me.demoted > 0 {
+			dem = append(dem, me)
+		} else {
+			en = append(en, me)
+		}
 	}
 	for _, t := range s.threads {
 		if t == me || t.done {
 			continue
 		}
 		if t.pred == nil || t.pred() {
-			en = append(en, t)
+			if t.demoted > 0 {
+				dem = append(dem, t)
+			} else {
+				en = append(en, t)
+			}
 		}
 	}
+	// stalled threads come last, in the order in which they were stalled
+	for i := 1; i < len(dem); i++ {
+		for j := i; j > 0 && dem[j].demoted < dem[j-1].demoted; j-- {
+			dem[j], dem[j-1] = dem[j-1], dem[j]
+		}
+	}
+	canStall := len(en) >= 1 && len(en)+len(dem) >= 2 && !s.cfg.NoStalls
+	en = append(en, dem...)
 	if len(en) == 0 {
 		s.stop(me)
 		return
@@ -340,15 +359,27 @@ func (s *sched) schedule(me *thread) {
 	}
 	choice := 0
 	if len(en) > 1 {
+		n := len(en)
+		if canStall {
+			n++ // extra alternative: stall the default thread persistently and run the next one
+		}
 		i := len(s.points)
 		if i < len(s.cfg.Prefix) {
 			choice = s.cfg.Prefix[i]
-			if choice < 0 || choice >= len(en) {
-				s.fatal(fmt.Sprintf("replay divergence at point %d: schedule choice %d of %d", i, choice, len(en)))
+			if choice < 0 || choice >= n {
+				s.fatal(fmt.Sprintf("replay divergence at point %d: schedule choice %d of %d", i, choice, n))
 				return
 			}
 		}
-		s.points = append(s.points, Point{Kind: KSched, N: len(en), Choice: choice, Running: curEnabled})
+		s.points = append(s.points, Point{Kind: KSched, N: n, Choice: choice, Running: curEnabled})
+		if choice == len(en) {
+			s.ndemoted++
+			en[0].demoted = s.ndemoted
+			if s.cfg.Trace {
+				s.log = append(s.log, fmt.Sprintf("        T%d(%s) is stalled", en[0].id, en[0].name))
+			}
+			choice = 1
+		}
 	}
 	next := en[choice]
 	next.pred = nil
@@ -496,9 +527,32 @@ func Quiesce() {
 		s.fatal("vsync.Quiesce used by two threads")
 	}
 	s.quiescer = me
+	for _, t := range s.threads {
+		t.demoted = 0
+	}
 	s.point("quiesce", nil, func() bool {
 		for _, t := range s.threads {
 			if t != me && !t.done && (t.pred == nil || t.pred()) {
+				return false
+			}
+		}
+		return true
+	})
+}
+
+// QuiesceKeep is Quiesce that leaves stalled threads stalled: it returns when no thread other than
+// the stalled ones is enabled, so a stall can span several driver events.  Oracles that judge
+// "has returned / has terminated" must use Quiesce, which releases every stalled thread first.
+func QuiesceKeep() {
+	if reaping {
+		runtime.Goexit()
+	}
+	s := S
+	me := s.cur
+	s.quiescer = me
+	s.point("quiesce(keep)", nil, func() bool {
+		for _, t := range s.threads {
+			if t != me && !t.done && t.demoted == 0 && (t.pred == nil || t.pred()) {
 				return false
 			}
 		}
